@@ -13,6 +13,7 @@ import (
 // before the swap yields, per constant-liquidity bucket, the spread charge and the active liquidity; a position
 // covering the bucket is owed charge x (its liquidity / active liquidity), a position not covering it nothing.
 type spreadLedger struct {
+	exactIn bool
 	ref     RefResult
 	pos     []clmodel.Position
 	before  map[uint64]*big.Int // claimable spread reward in the token-in denom before the swap
@@ -20,7 +21,7 @@ type spreadLedger struct {
 }
 
 func (s *Sim) newSpreadLedger(zfo, exactIn bool, amt *big.Int, in string) *spreadLedger {
-	l := &spreadLedger{ref: s.RefSwap(zfo, exactIn, amt), pos: s.Positions(), before: map[uint64]*big.Int{}}
+	l := &spreadLedger{exactIn: exactIn, ref: s.RefSwap(zfo, exactIn, amt), pos: s.Positions(), before: map[uint64]*big.Int{}}
 	cur := s.Pool().GetCurrentTick()
 	for _, b := range l.ref.Buckets {
 		l.tickPos = append(l.tickPos, cur)
@@ -60,9 +61,26 @@ func (l *spreadLedger) check(rt *rapid.T, s *Sim, in string) {
 			return
 		}
 	}
+	// exact-out: the module tracks the amount still to be delivered at 18 decimals, so every bucket leaves up to 1e-18 of
+	// the token out unaccounted; the remaining buckets are walked with that dust, which costs its marginal price in token
+	// in - next to a nearly drained bucket that price (s'^2, up to 1e38) turns 1e-18 into whole units (observed: sqrt
+	// price moved by 4.5e-14 relative, 6e6 units of 1.2e20)
+	dust := new(big.Rat)
+	if !l.exactIn {
+		maxP := new(big.Rat)
+		for _, b := range l.ref.Buckets {
+			if b.PriceOther != nil && b.PriceOther.Cmp(maxP) > 0 {
+				maxP = b.PriceOther
+			}
+		}
+		dust.Mul(maxP, new(big.Rat).SetFrac(big.NewInt(int64(4*(len(l.ref.Buckets)+1))), e18))
+		// the charge is amount in x f/(1-f)
+		f := decRat(s.Spread)
+		dust.Mul(dust, new(big.Rat).Quo(f, new(big.Rat).Sub(big.NewRat(1, 1), f)))
+	}
 	for _, p := range l.pos {
 		want := new(big.Rat)
-		tol := big.NewRat(2, 1)
+		tol := new(big.Rat).Add(big.NewRat(2, 1), dust)
 		liq := decRat(p.Liquidity)
 		for i, b := range l.ref.Buckets {
 			if b.L.Sign() == 0 || !(p.LowerTick <= l.tickPos[i] && l.tickPos[i] < p.UpperTick) {
